@@ -39,6 +39,9 @@ e = priority(p.eft) || deny
 m = r.sub == p.sub && r.obj == p.obj && r.act == p.act
 """
 
+# the priority field in the LAST position (every bundled example has it first)
+PRIO_LAST = PRIO.replace("p = priority, sub, obj, act, eft", "p = sub, obj, act, eft, priority")
+
 # two policy definitions: the first WITHOUT a priority field, the second with one (selected through an enforce context)
 PRIO2 = """[request_definition]
 r = sub, obj, act
@@ -458,6 +461,10 @@ def interleave_reads(hist, reads, rng=None, every=True):
 
 def first_match_decision(policy, req, shape):
     off = 1 if shape.pi is not None else 0
+    if shape.pi:
+        # the priority field is not the first one: take it out, the other fields follow the request's order
+        policy = [list(r[: shape.pi]) + list(r[shape.pi + 1 :]) for r in policy]
+        off = 0
     for r in policy:
         if list(r[off : off + len(req)]) == list(req) and len(r) > off + len(req) and r[off + len(req)] in ("allow", "deny"):
             return "T" if r[off + len(req)] == "allow" else "F"
